@@ -63,6 +63,7 @@ type Module struct {
 	chaMemo    map[string]*ssa.Function
 	allFuncs   []*ssa.Function
 	mapCopy    map[*ssa.Function]bool
+	hflows     map[*ssa.Function][]flow
 	renames    map[string]string // anchors resolved to a renamed function (names.go)
 	gfCache    map[*ssa.Global]*ssa.Function
 	pdomCache  map[*ssa.Function]*postDom
@@ -217,6 +218,7 @@ func loadModule(dir string, tests bool, patterns []string, extraEnv ...string) (
 	}
 	m.canonTypes()
 	m.canonFields()
+	m.canonLocks()
 	return m, nil
 }
 
